@@ -51,6 +51,8 @@ type world struct {
 	fid  map[chainhash.Hash]int
 	fhs  []chainhash.Hash // by fid
 	r    *rand.Rand
+
+	checkAllGone bool // the next dump looks every removed block hash up (after a deep rollback)
 }
 
 type faultFile struct {
@@ -563,7 +565,7 @@ func (w *world) dump() string {
 	// entries that are not in the file must not be found by hash
 	gone := "ok"
 	for id, h := range w.bhdr {
-		if present[id] || (!fullDump && id+40 < len(w.bhdr)) {
+		if present[id] || (!fullDump && !w.checkAllGone && id+40 < len(w.bhdr)) {
 			continue
 		}
 		hash := h.BlockHash()
@@ -576,6 +578,7 @@ func (w *world) dump() string {
 			break
 		}
 	}
+	w.checkAllGone = false
 	fmt.Fprintf(&sb, " xb %s gone %s", xb, gone)
 	return sb.String()
 }
@@ -658,10 +661,13 @@ func (g *gen) mutate() bool {
 		if g.r.Intn(40) == 0 {
 			n = 50 + g.r.Intn(250)
 		}
-		if g.r.Intn(90) == 0 {
+		if g.r.Intn(60) == 0 {
 			// a batch far beyond any plausible internal chunk size (the header
 			// import writes tens of thousands of headers at once)
 			n = 2001 + g.r.Intn(2600)
+			if g.r.Intn(2) == 0 {
+				n += 2500 // deep enough for a rollback crossing two chunks of 2000
+			}
 		}
 		var batch []int
 		prev := tipHash
@@ -692,6 +698,12 @@ func (g *gen) mutate() bool {
 		n := g.r.Intn(3)
 		if g.r.Intn(6) == 0 {
 			n = int(tipH) + g.r.Intn(2) // to genesis and past it
+		}
+		if max > 2100 && g.r.Intn(2) == 0 {
+			// a rollback far deeper than any plausible internal chunk size
+			n = 2001 + g.r.Intn(max-2000)
+			w.checkAllGone = true
+			g.t.Hit("store.rb.deep")
 		}
 		if n > max && g.r.Intn(4) != 0 {
 			n = max
@@ -992,6 +1004,56 @@ func initCase(t *tr.W, r *rand.Rand, step, tornLen, n int) {
 	g.emit("dump", w.dump())
 }
 
+// deepCase: one scripted case per run with a batch and a rollback far deeper
+// than any plausible internal chunk size (a rollback that is read or deleted in
+// chunks must not skip an entry at a chunk boundary), followed by new blocks at
+// the same heights and a restart.
+func deepCase(t *tr.W, r *rand.Rand) {
+	w := newWorld(r)
+	defer w.destroy()
+	g := &gen{w: w, r: r, t: t}
+	t.Case("store plain")
+	g.emit("dump", w.dump())
+	grow := func(n int) {
+		tipH, tipHash, err := w.tipB()
+		if err != nil {
+			return
+		}
+		var batch []int
+		prev := tipHash
+		for i := 0; i < n; i++ {
+			id := w.newBlock(prev)
+			prev = w.bhdr[id].BlockHash()
+			batch = append(batch, id)
+		}
+		g.emit(strings.TrimSpace("wb "+ids(batch)), w.run(func() string { return w.writeBlocks(batch, tipH+1) }))
+	}
+	rb := func(n int) {
+		g.emit(fmt.Sprintf("rb %d", n), w.run(func() string {
+			st, err := w.bs.RollbackBlockHeaders(uint32(n))
+			if err != nil {
+				return "err"
+			}
+			return fmt.Sprintf("ok %d:%s", st.Height, w.bname(st.Hash))
+		}))
+		w.checkAllGone = true
+		g.emit("dump", w.dump())
+	}
+	grow(4200 + r.Intn(300))
+	g.emit("dump", w.dump())
+	rb(4001 + r.Intn(150)) // crosses two boundaries of a 2000-chunk
+	grow(3)
+	w.checkAllGone = true
+	g.emit("dump", w.dump())
+	grow(2300)
+	rb(2001 + r.Intn(200))
+	w.close()
+	g.emit("reopen", errClass(w.open()))
+	w.checkAllGone = true
+	g.emit("dump", w.dump())
+	t.Hit("store.deep-case")
+}
+
 // Cases emits n cases.  mode: "plain" (no faults), "faults", "crashes".
 func Cases(t *tr.W, r *rand.Rand, n int, mode string) {
 	for i := 0; i < n; i++ {
@@ -1023,6 +1085,7 @@ func init() {
 			// the search pass after a broken tie: three times the quick budget, so that a failing run stays short
 			b, k = 1, 3
 		}
+		deepCase(t, r)
 		Cases(t, r, b*k*tr.EnvInt("STORE_PLAIN", 100), "plain")
 		Cases(t, r, b*k*tr.EnvInt("STORE_FAULTS", 130), "faults")
 		if template != "" {
